@@ -216,7 +216,12 @@ class VideoPlayer(HTMLHandlerBase):
                 )
             title = multi_period.title
         app_cfg = flask.current_app.config["DASH"]
-        manifest += ".mpd"
+        if not manifest.endswith(".mpd"):
+            manifest += ".mpd"
+        if manifest not in manifests.manifest_map:
+            return flask.make_response(
+                f"Unknown manifest: {html.escape(manifest)}", 404
+            )
         context = self.create_context(title=title)
         try:
             options = self.calculate_options(mode, flask.request.args)
